@@ -372,20 +372,3 @@ Proof. intros [g p] R E. unfold pneg, np_Pauli_neg in E; cbn [fst snd] in *. inj
 Lemma batch_is_pmul : forall l1 l2, batch_mul l1 l2 = flat_map (fun a => map (fun b => pmul a b) l2) l1.
 Proof. reflexivity. Qed.
 
-(* torch twins of the per-site summands coincide with the numpy ones on bits *)
-Lemma torch_terms_agree : forall a b c d : bool,
-  torch_acq_term (zb a) (zb b) (zb c) (zb d) mod 2 = np_acq_term (zb a) (zb b) (zb c) (zb d) mod 2 /\
-  torch_ipow_term (zb a) (zb b) (zb c) (zb d) mod 4 = np_ipow_term (zb a) (zb b) (zb c) (zb d) mod 4 /\
-  torch_ipow_product_term (zb a) (zb b) (zb c) (zb d) mod 4 = np_ipow_term (zb a) (zb b) (zb c) (zb d) mod 4 /\
-  torch_ps0_term (zb a) (zb b) mod 4 = np_ps0_term (zb a) (zb b) mod 4 /\
-  np_acq_mat_term (zb a) (zb b) (zb c) (zb d) mod 2 = np_acq_term (zb a) (zb b) (zb c) (zb d) mod 2.
-Proof. intros [|] [|] [|] [|]; vm_compute; repeat split; reflexivity. Qed.
-Lemma torch_moduli_agree :
-  torch_acq_modulus = np_acq_modulus /\ torch_ipow_modulus = np_ipow_modulus /\
-  torch_ipow_product_modulus = np_ipow_modulus /\ torch_ps0_modulus = np_ps0_modulus /\
-  np_acq_mat_modulus = np_acq_modulus /\ np_p0_modulus = np_ps0_modulus.
-Proof. repeat split; reflexivity. Qed.
-Lemma torch_matmul_agree : forall p1 p2 ip a b,
-  torch_matmul_phase p1 p2 ip = np_matmul_phase p1 p2 ip /\ torch_matmul_bit a b = np_matmul_bit a b /\
-  np_batch_dot_phase p1 p2 ip = np_matmul_phase p1 p2 ip /\ np_batch_dot_bit a b = np_matmul_bit a b.
-Proof. intros; repeat split; reflexivity. Qed.
